@@ -280,6 +280,7 @@ func Catch(f func()) (p interface{}, stack string) {
 // TopRepoFrame extracts the first stack frame that lies in idena-go itself (not in a verif
 // harness file and not in the Go runtime) from a debug.Stack() dump.
 func TopRepoFrame(stack string) string {
+	repoDir := os.Getenv("VERIF_REPO_DIR")
 	lines := strings.Split(stack, "\n")
 	skipping := true
 	for i := 0; i+1 < len(lines); i++ {
@@ -307,7 +308,7 @@ func TopRepoFrame(stack string) string {
 			k := strings.LastIndex(fn, "(")
 			fn = fn[:k]
 		}
-		if strings.Contains(loc, "idena-go") || strings.HasPrefix(loc, "/repo/") {
+		if strings.Contains(loc, "idena-go") || strings.HasPrefix(loc, "/repo/") || repoDir != "" && strings.HasPrefix(loc, repoDir+"/") {
 			return fn
 		}
 	}
